@@ -21,7 +21,11 @@
 #define LIFE_TRACKED_H
 #include <stdint.h>
 #ifndef FLAV
-#define FLAV 0 // 0: copyable and movable, 1: move-only, 2: copy-only (no move operations declared: rvalues are copied)
+#define FLAV 0 // 0: copyable and movable, 1: move-only, 2: copy-only (no move operations declared: rvalues are copied),
+               // 3: user-provided constructors and destructor but DEFAULTED (trivial) copy and move assignment: an assignment
+               //    copies payload and state word bitwise and reports nothing, so for this flavour everything rests on the
+               //    per-type census and construction/destruction balance (a library that "assigns" such objects bitwise
+               //    where it should destroy one type and construct another is caught there)
 #endif
 #define LG_REGIONS 4
 #ifndef LG_SLOTS
@@ -38,6 +42,7 @@ struct Ledger {
     uint32_t esz[LG_REGIONS];  // learned from the first census that expects an element (0: not yet known; such a region
     uint32_t nslot[LG_REGIONS]; // has never held an element, the census counts nothing in it)
     uint32_t nctor, ndtor; // every construction / destruction, wherever the object lives
+    uint32_t nctor_t[4], ndtor_t[4]; // the same per type tag (index 1..3)
     uint32_t ncopy, nmove, ncassign, nmassign;
     uint32_t bad; // number of illegal transitions seen (each one also fails its own vf_assert)
 };
@@ -54,6 +59,7 @@ static inline void lg_ctor(void const*, uint32_t* st, uint32_t tag)
 {
     *st = LG_LIVE + tag;
     vf_led.nctor++;
+    vf_led.nctor_t[tag & 3]++;
 }
 static inline void lg_use(void const*, uint32_t st, uint32_t tag)
 {
@@ -64,6 +70,7 @@ static inline void lg_dtor(void const*, uint32_t* st, uint32_t tag)
     lg_bad(*st == LG_LIVE + tag || *st == LG_MOVED + tag, "C03: a destructor runs on storage that holds no live object (double destroy / never constructed)");
     *(uint32_t volatile*)st = LG_DEAD;
     vf_led.ndtor++;
+    vf_led.ndtor_t[tag & 3]++;
 }
 
 struct SrcV { // plain value a Tracked can be implicitly constructed / assigned from (converting constructors and assignments)
@@ -100,8 +107,14 @@ struct Tracked {
         if (&o != this) { o.v = LG_MOVED_V; o.st = LG_MOVED + TAG; }
         vf_led.nmove++;
     }
+    Tracked& operator=(Tracked const&) noexcept
+        requires(FL == 3)
+    = default;
+    Tracked& operator=(Tracked&&) noexcept
+        requires(FL == 3)
+    = default;
     Tracked& operator=(Tracked const& o) noexcept
-        requires(FL != 1)
+        requires(FL != 1 && FL != 3)
     {
         lg_use(&o, o.st, TAG);
         lg_use(this, st, TAG);
@@ -111,7 +124,7 @@ struct Tracked {
         return *this;
     }
     Tracked& operator=(Tracked&& o) noexcept
-        requires(FL != 2)
+        requires(FL != 2 && FL != 3)
     {
         lg_use(&o, o.st, TAG);
         lg_use(this, st, TAG);
@@ -191,23 +204,33 @@ extern "C" __attribute__((noinline)) void lg_expect(unsigned r, uint64_t off, un
         else vf_assert(!lg_is_mark(w), "C03: a live object is left outside the owner's elements (leak: constructed but never destroyed)");
     }
 }
-extern "C" __attribute__((noinline)) unsigned lg_marks() // live objects in the element slots of all regions
+// live objects in the element slots of all regions: total (returned) and per type tag (by_tag[1..3])
+extern "C" __attribute__((noinline)) unsigned lg_marks(uint32_t* by_tag)
 {
     unsigned c = 0;
+    by_tag[0] = by_tag[1] = by_tag[2] = by_tag[3] = 0;
     for (unsigned r = 0; r < LG_REGIONS; r++)
         for (unsigned i = 0; i < LG_SLOTS; i++)
-            if (i < vf_led.nslot[r] && lg_is_mark(lg_word_at(r, vf_led.off[r] + uint64_t(i) * vf_led.esz[r] + 4))) c++;
+            if (i < vf_led.nslot[r]) {
+                uint32_t w = lg_word_at(r, vf_led.off[r] + uint64_t(i) * vf_led.esz[r] + 4);
+                if (lg_is_mark(w)) { c++; by_tag[w & 3]++; } // LG_LIVE and LG_MOVED end in two zero bits: the low bits are the tag
+            }
     return c;
 }
 static inline void lg_quiet() // between kernel calls
 {
-    vf_assert(vf_led.nctor - vf_led.ndtor == lg_marks(), "C03: constructions - destructions == live objects in the owners (a temporary leaked, an object was constructed over a live one, destroyed objects are missing, or a live object was copied bitwise)");
+    uint32_t m[4];
+    vf_assert(vf_led.nctor - vf_led.ndtor == lg_marks(m), "C03: constructions - destructions == live objects in the owners (a temporary leaked, an object was constructed over a live one, destroyed objects are missing, or a live object was copied bitwise)");
+    vf_assert(vf_led.nctor_t[1] - vf_led.ndtor_t[1] == m[1] && vf_led.nctor_t[2] - vf_led.ndtor_t[2] == m[2] && vf_led.nctor_t[3] - vf_led.ndtor_t[3] == m[3],
+              "C03: per type: constructions - destructions == live objects of that type in the owners (an object of one type was turned into another without destroying the one and constructing the other)");
     vf_assert(vf_led.bad == 0, "C03: no illegal lifetime transition");
 }
 static inline void lg_balanced() // at the very end, every owner destroyed
 {
+    uint32_t m[4];
     vf_assert(vf_led.nctor == vf_led.ndtor, "C03: constructions == destructions once every owner is destroyed");
-    vf_assert(lg_marks() == 0 && vf_led.bad == 0, "C03: nothing is alive, no illegal transition");
+    vf_assert(vf_led.nctor_t[1] == vf_led.ndtor_t[1] && vf_led.nctor_t[2] == vf_led.ndtor_t[2] && vf_led.nctor_t[3] == vf_led.ndtor_t[3], "C03: per type: constructions == destructions once every owner is destroyed");
+    vf_assert(lg_marks(m) == 0 && vf_led.bad == 0, "C03: nothing is alive, no illegal transition");
 }
 // payload values avoid the reserved state patterns (so a payload word is never mistaken for a live mark by the census)
 static inline uint32_t lg_nd_payload()
